@@ -1303,7 +1303,7 @@ impl PackageTemplate {
 	#[rustfmt::skip]
 	pub(crate) fn split_package(&mut self, split_outp: &BitcoinOutPoint) -> Option<PackageTemplate> {
 		match self.malleability {
-			PackageMalleability::Malleable(cluster) => {
+			PackageMalleability::Malleable(_) => {
 				let mut split_package = None;
 				let feerate_previous = self.feerate_previous;
 				let height_timer = self.height_timer;
@@ -1311,7 +1311,9 @@ impl PackageTemplate {
 					if *split_outp == outp.0 {
 						split_package = Some(PackageTemplate {
 							inputs: vec![(outp.0, outp.1.clone())],
-							malleability: PackageMalleability::Malleable(cluster),
+							// Always derive the aggregation cluster from the (sole) input, as we do
+							// on deserialization, rather than inheriting the merged parent's.
+							malleability: outp.1.map_output_type_flags(),
 							counterparty_spendable_height: self.counterparty_spendable_height,
 							feerate_previous,
 							height_timer,
@@ -1320,6 +1322,10 @@ impl PackageTemplate {
 					}
 					return true;
 				});
+				// The parent's cluster follows its lead input, as it will once re-read from disk.
+				if let Some((_, lead_input)) = self.inputs.first() {
+					self.malleability = lead_input.map_output_type_flags();
+				}
 				return split_package;
 			},
 			_ => {
